@@ -3,12 +3,15 @@
 Prints caught/missed; never leaves /repo modified."""
 import glob, json, os, subprocess, sys
 V = os.path.dirname(os.path.dirname(os.path.abspath(__file__)))
-want = [a.upper() for a in sys.argv[1:]]
+want = [a.upper() for a in sys.argv[1:] if not a.startswith("-m")]
+suffix = [a[1:] for a in sys.argv[1:] if a.startswith("-m")]
 rows = []
 for d in sorted(glob.glob(os.path.join(V, "seeded", "C*-m*"))):
     name = os.path.basename(d)
     pid = name.split("-")[0]
     if want and pid not in want:
+        continue
+    if suffix and name.split("-")[1] not in suffix:
         continue
     if subprocess.run(["git", "-C", "/repo", "status", "--porcelain"], capture_output=True, text=True).stdout.strip():
         sys.exit("/repo is not clean")
